@@ -25,9 +25,11 @@ NodesMap(nodes, k) == IF k > Len(nodes) THEN <<>>
 
 Init == l = 1 /\ rec = <<>> /\ open = <<>>     \* open: id -> [nodes, lo, over]
 
-RECURSIVE Judge(_, _, _, _, _, _)
+RECURSIVE Judge(_, _, _, _, _, _, _)
 \* walks the nodes of a returning call; own: what the earlier nodes of this call imply
-Judge(nodes, st, k, lo, over, line) ==
+\* (honour = FALSE for a call whose request to the store was made to fail by the harness: fetching again is then
+\*  the safe side and not judged, but still nothing may be skipped without a record)
+Judge(nodes, st, k, lo, over, line, honour) ==
   IF k > Len(nodes) THEN TRUE
   ELSE LET n == nodes[k]
            own == NodesMap(SubSeq(nodes, 1, k - 1), 1)
@@ -35,9 +37,9 @@ Judge(nodes, st, k, lo, over, line) ==
            hik == Up(lok, Lookup(over, n.c))
            must == Rank(lok) >= 2 \/ (Rank(lok) >= 1 /\ n.t = "asset")
            may == Rank(hik) >= 2 \/ (Rank(hik) >= 1 /\ n.t = "asset")
-       IN /\ Check(~must \/ st[k] = "Seen", line, "URL recorded as seen before this check was fetched again (" \o n.t \o " over " \o lok \o ")")
+       IN /\ Check(~honour \/ ~must \/ st[k] = "Seen", line, "URL recorded as seen before this check was fetched again (" \o n.t \o " over " \o lok \o ")")
           /\ Check(st[k] # "Seen" \/ may, line, "item skipped as seen although the store had no such record (" \o n.t \o " over " \o hik \o ")")
-          /\ Judge(nodes, st, k + 1, lo, over, line)
+          /\ Judge(nodes, st, k + 1, lo, over, line, honour)
 
 Recorded(nodes, st) ==
   LET idx == {k \in 1..Len(nodes) : st[k] # "Seen"}
@@ -58,10 +60,12 @@ Next ==
                           @@ [i \in DOMAIN open |-> [open[i] EXCEPT !.over = Join(@, nm)]]
                /\ UNCHANGED rec
        [] e.ev = "ret" ->
-            LET o == open[e.id] IN
-            /\ Check(~HasKey(e, "err"), l, "SeencheckItem returned an error")
-            /\ Judge(o.nodes, e.st, 1, o.lo, o.over, l)
-            /\ rec' = Join(rec, Recorded(o.nodes, e.st))
+            LET o == open[e.id]
+                inj == HasKey(e, "injected") /\ e.injected
+            IN
+            /\ Check(inj \/ ~HasKey(e, "err"), l, "SeencheckItem returned an error")
+            /\ Judge(o.nodes, e.st, 1, o.lo, o.over, l, ~inj)
+            /\ rec' = IF inj THEN rec ELSE Join(rec, Recorded(o.nodes, e.st))
             /\ open' = [i \in DOMAIN open \ {e.id} |-> open[i]]
        [] e.ev = "tree" ->
             /\ Check(\A i, j \in FreshNonSeed(e.nodes) : e.nodes[i].u = e.nodes[j].u => i = j, l,
